@@ -428,6 +428,12 @@ def t_alias_preproc(what):
         steps.append("correct_force_slope")     # now the entry is used
     else:
         steps.append("correct_force_offset")
+    # the caller's edit alone (no call yet) must not reach into the curve
+    fpd = idnt.fit_properties
+    prove("remembered-request-not-aliased-to-caller-objects",
+          idnt.preprocessing == st0 and idnt.preprocessing_options == op0
+          and list(fpd.get("preprocessing", st0)) == st0 and fpd.get("preprocessing_options", op0) == op0,
+          info={"remembered": repr((idnt.preprocessing, idnt.preprocessing_options))[:200]})
     call(idnt, steps, opts)
     r2 = len(runs)
     witness("second-call")
@@ -597,6 +603,8 @@ elif what in ("unused-entry", "fit-unused-entry"):
     steps.append("correct_force_slope")
 else:
     steps.append("correct_force_offset")
+if a.preprocessing != st0 or a.preprocessing_options != op0 or a.fit_properties.get("preprocessing_options", op0) != op0:
+    print("REPRODUCED: the caller's later in-place edit changed what the curve remembers:", a.preprocessing, a.preprocessing_options); sys.exit(1)
 call(a, steps, opts); r2 = napply[0]
 call(b, st0, op0); q1 = napply[0]
 call(b, copy.deepcopy(steps), copy.deepcopy(opts)); q2 = napply[0]
